@@ -135,6 +135,12 @@ def gen_glob(rng):
         if steps and all(st is not None and b is not None for t in c["ts"] for st, b in t):
             thr = rng.choice(steps)
             c["ts"] = [[[st * 2 if st > thr else st, b] for st, b in t] for t in c["ts"]]
+    # the root of the chain: an initialised global, an uninitialised global or a memref arith.constant (chain form only)
+    static = all(st is not None and b is not None for t in c["ts"] for st, b in t)
+    if c["form"] == "chain" and static and rng.random() < 0.4:
+        c["root"] = rng.choice(["uninit", "const"])
+    else:
+        c["root"] = "init"
     return c
 
 
@@ -170,29 +176,56 @@ def layout_text(ts, offset):
     return ", ".join(parts) + (f", offset: {offset}" if offset else "")
 
 
+def nested_literal(vals, shape):
+    if len(shape) <= 1:
+        return "[" + ", ".join(str(v) for v in vals) + "]"
+    n = len(vals) // shape[0]
+    return "[" + ", ".join(nested_literal(vals[i * n:(i + 1) * n], shape[1:]) for i in range(shape[0])) + "]"
+
+
 def glob_src(case):
+    """direct form: layout cast applied to the global itself, consumer `test.op` (the shape of the upstream tests).
+    chain form: root (global in L3 / memref constant) -> memory_space_cast to L1 -> layout cast -> accelerator op
+    (what set-memory-space + set-memory-layout produce for weights)."""
     shape = "x".join(str(s) for s in case["shape"])
     el = case["el"]
     vals = ", ".join(str(v) for v in case["data"])
+    root = case.get("root", "init")
     if case.get("strided"):
         lay = f"strided<[{', '.join(str(x) for x in case['strided'])}]>"
     else:
         lay = f"#tsl.tsl<{layout_text(case['ts'], case['offset'])}>"
-    t0 = f"memref<{shape}x{el}>"
-    if case.get("form") == "chain":  # the usual chain: global -> L1 -> accelerator layout
+    chain = case.get("form") == "chain"
+    t0 = f'memref<{shape}x{el}, "L3">' if chain and root != "const" else f"memref<{shape}x{el}>"
+    args = ""
+    if chain:
+        rank = len(case["shape"])
+        ident = "affine_map<(" + ", ".join(f"d{i}" for i in range(rank)) + ") -> (" + ", ".join(f"d{i}" for i in range(rank)) + ")>"
+        ta = f'memref<{shape}x{el}, "L1">'
         t1 = f'memref<{shape}x{el}, "L1">'
         t2 = f'memref<{shape}x{el}, {lay}, "L1">'
+        args = f"%a : {ta}, %b : {ta}"
         body = f'''    %1 = "memref.memory_space_cast"(%0) : ({t0}) -> {t1}
     %2 = "snax.layout_cast"(%1) : ({t1}) -> {t2}
-    "test.op"(%2) : ({t2}) -> ()'''
+    linalg.generic {{indexing_maps = [{ident}, {ident}, {ident}], iterator_types = [{", ".join(['"parallel"'] * rank)}]}} ins(%a, %2 : {ta}, {t2}) outs(%b : {ta}) attrs = {{tag = 1}} {{
+    ^bb0(%x: {el}, %y: {el}, %z: {el}):
+      %m = arith.muli %x, %y : {el}
+      linalg.yield %m : {el}
+    }}'''
     else:
         t2 = f"memref<{shape}x{el}, {lay}>"
         body = f'''    %1 = "snax.layout_cast"(%0) : ({t0}) -> {t2}
     "test.op"(%1) : ({t2}) -> ()'''
+    glob = ""
+    if root == "const":
+        get = f"    %0 = arith.constant dense<{nested_literal(case['data'], case['shape'])}> : {t0}"
+    else:
+        init = f"initial_value = dense<[{vals}]> : tensor<{len(case['data'])}x{el}>" if root == "init" else "initial_value"
+        glob = f'  "memref.global"() <{{sym_name = "g", type = {t0}, {init}, sym_visibility = "private"}}> : () -> ()\n'
+        get = f'    %0 = "memref.get_global"() <{{name = @g}}> : () -> {t0}'
     return f'''builtin.module {{
-  "memref.global"() <{{sym_name = "g", type = {t0}, initial_value = dense<[{vals}]> : tensor<{len(case["data"])}x{el}>, sym_visibility = "private", constant}}> : () -> ()
-  func.func @f() {{
-    %0 = "memref.get_global"() <{{name = @g}}> : () -> {t0}
+{glob}  func.func @f({args}) {{
+{get}
 {body}
     func.return
   }}
@@ -220,18 +253,27 @@ def type_addrs(t):
     raise NotImplementedError(str(lay))
 
 
+def target_layout_is(t, case):
+    """the layout of the memref type is the cast's target layout"""
+    from xdsl.dialects import builtin
+    return not isinstance(t.layout, builtin.NoneAttr)
+
+
 def impl_glob(case):
-    """The same transformation through `realize-memref-casts` (ApplyLayoutCastMemrefGlobal, or alloc + copy when the
-    constant is not transformed). `out` = dense data of the new global (None: global untouched); `seen` = what the
-    consumer of the cast reads, logical index by logical index, when the lowered function is executed on flat
-    memories (address = layout of the type)."""
-    from xdsl.dialects import builtin, func, memref
+    """The same transformation through `realize-memref-casts` (ApplyLayoutCast{MemrefGlobal,ArithConstant}, or alloc +
+    copy when the constant is not transformed). `out` = dense data of the re-laid-out root (None: root untouched);
+    `seen` = what the consumer reads through the operand that stems from the root, logical index by logical index, when
+    the lowered function is executed on flat memories (address = layout of the type); `operands` = how every operand
+    of the consumer is produced (defining op, memory space, layout, copies that fill it) - the cast structure."""
+    from xdsl.dialects import arith, builtin, func, linalg, memref
+    from xdsl.ir import BlockArgument
     from snaxc.dialects.snax import LayoutCast
     import warnings
     with warnings.catch_warnings():
         warnings.simplefilter("ignore")
         out = snaxrun.run_passes(glob_src(case), "realize-memref-casts")
     m = snaxrun.parse(out)
+    m.verify()
     res = {"out": None}
     gmem = {}
     for op in m.walk():
@@ -246,11 +288,38 @@ def impl_glob(case):
                 if op.sym_name.data == "g_transformed":
                     res["out"] = "uninitialised"
     mem_of = {}
+    fills = {}
     seen = None
+    operands = None
+
+    def desc(v):
+        if isinstance(v, BlockArgument):
+            return {"op": "arg", "space": space_name(v.type)}
+        o = v.owner
+        d = {"space": space_name(v.type), "target_layout": target_layout_is(v.type, case)}
+        if isinstance(o, memref.AllocOp):
+            d.update(op="alloc", filled_from=[desc(x) for x in fills.get(v, [])])
+        elif isinstance(o, memref.GetGlobalOp):
+            d.update(op="get_global", name=o.name_.root_reference.data)
+        elif isinstance(o, arith.ConstantOp):
+            d.update(op="constant")
+        elif isinstance(o, (memref.MemorySpaceCastOp, LayoutCast)):
+            d.update(op=o.name, of=desc(o.operands[0]))
+        else:
+            d.update(op=o.name)
+        return d
+
     f = [o for o in m.walk() if isinstance(o, func.FuncOp)][0]
+    for a in f.body.block.args:
+        mem_of[a] = {}
     for op in f.body.block.ops:
         if isinstance(op, memref.GetGlobalOp):
             mem_of[op.memref] = gmem[op.name_.root_reference.data]
+        elif isinstance(op, arith.ConstantOp):
+            vals = [int(v) for v in op.value.get_values()]
+            mem_of[op.result] = dict(enumerate(vals))  # the dense data is the storage image
+            if target_layout_is(op.result.type, case):
+                res["out"] = vals
         elif isinstance(op, memref.AllocOp):
             mem_of[op.memref] = {}
         elif isinstance(op, memref.MemorySpaceCastOp):
@@ -264,11 +333,34 @@ def impl_glob(case):
             vals = [sm.get(x, "uninit") for x in type_addrs(op.source.type)]
             for x, v in zip(type_addrs(op.destination.type), vals):
                 dm[x] = v
-        elif op.name == "test.op" and seen is None:
-            v = op.operands[0]
-            seen = [mem_of[v].get(x, "uninit") for x in type_addrs(v.type)]
+            fills.setdefault(op.destination, []).append(op.source)
+        elif (op.name == "test.op" or isinstance(op, linalg.GenericOp)) and operands is None:
+            v = op.operands[-1] if op.name == "test.op" else op.operands[1]
+            if seen is None:
+                seen = [mem_of[v].get(x, "uninit") for x in type_addrs(v.type)]
+            operands = [desc(x) for x in op.operands]
+            res["accelerator"] = isinstance(op, linalg.GenericOp)
     res["seen"] = seen
+    res["operands"] = operands
     return res
+
+
+def predict_glob(case, fold):
+    """Model side of the structure: what the consumer's operands look like after the pass, given whether the root is
+    re-laid-out at compile time (`fold` = answer of the Lean model of transform_constant)."""
+    root = case.get("root", "init")
+    chain = case.get("form") == "chain"
+    rspace = "none" if (root == "const" or not chain) else "L3"
+    if root == "const":
+        src = {"op": "constant", "space": rspace, "target_layout": fold}
+    else:
+        src = {"op": "get_global", "name": "g_transformed" if fold else "g", "space": rspace, "target_layout": fold}
+    if not chain:
+        if fold:  # the layout cast disappears, the consumer uses the re-laid-out global
+            return [src]
+        return [{"op": "alloc", "space": rspace, "target_layout": True, "filled_from": [src]}]
+    arg = {"op": "arg", "space": "L1"}
+    return [arg, {"op": "alloc", "space": "L1", "target_layout": True, "filled_from": [src]}, arg]
 
 
 def oracle_glob(case, out):
@@ -279,16 +371,24 @@ def oracle_glob(case, out):
         addrs = [sum(i * st for i, st in zip(idx, case["strided"])) for idx in idxs]
     else:
         addrs = [addr_of(case["ts"], idx) for idx in idxs]
+    v = []
+    if out.get("accelerator"):
+        bad = [i for i, d in enumerate(out["operands"]) if d["space"] != "L1"]
+        if bad:
+            v.append({"what": f"operands {bad} of the accelerator op do not live in L1 after realize-memref-casts: "
+                              f"{[out['operands'][i]['op'] + ' in ' + str(out['operands'][i]['space']) for i in bad]}", "finding": None})
     if len(set(addrs)) != len(addrs):
-        return []  # the target layout maps two elements to one address: outside the quantifier (C09's subject)
+        return v  # the target layout maps two elements to one address: outside the quantifier (C09's subject)
+    if case.get("root", "init") == "uninit":
+        return v  # nothing to read
     if out["seen"] != case["data"]:
         moved = isinstance(out.get("out"), list)
         fid = "DC12d" if moved and case.get("offset") else None
         bad = out["seen"] if isinstance(out["seen"], str) else next(
             (f"logical element #{i}: {x} instead of {y}" for i, (x, y) in enumerate(zip(out["seen"], case["data"])) if x != y), "length")
-        return [{"what": f"the consumer of a layout cast of an initialised global does not read the global's values ({bad}; "
-                         f"new global data: {'yes' if moved else out.get('out')})", "finding": fid}]
-    return []
+        v.append({"what": f"the consumer of a layout cast of an initialised global / constant does not read the root's values ({bad}; "
+                          f"new data: {'yes' if moved else out.get('out')})", "finding": fid})
+    return v
 
 
 def addr_of(ts, idx):
@@ -1115,7 +1215,7 @@ class C12(Prop):
             yield gen_const(rng, big=not q)
         for i, c in enumerate(perm_cases(2 if q else 3)):
             yield c
-        for _ in range(80 if q else 1200):
+        for _ in range(150 if q else 2000):
             yield gen_glob(rng)
         for _ in range(350 if q else 6000):
             yield gen_pipe(rng, big=not q)
@@ -1149,8 +1249,8 @@ class C12(Prop):
     # -- model ------------------------------------------------------------------------------
     def requests(self, case, impl_out):
         k = case["kind"]
-        if k == "glob" and case.get("strided"):
-            return []  # `dest layout is not tsl`: not transformed
+        if k == "glob" and (case.get("strided") or case.get("root") == "uninit"):
+            return []  # `dest layout is not tsl`: not transformed; an uninitialised global is always re-typed
         if k == "pipe":
             return []
         if k in ("const", "glob"):
@@ -1183,8 +1283,18 @@ class C12(Prop):
             return impl_out
         if k == "pipe":
             return {"oracle_only": True}
-        if k == "glob" and case.get("strided"):
-            return {"out": None}
+        if k == "glob":
+            if case.get("root") == "uninit":
+                return {"out": "uninitialised", "operands": predict_glob(case, True)}
+            if case.get("strided"):
+                return {"out": None, "operands": predict_glob(case, False)}
+            a = answers[0]
+            if "err" in a:
+                return {"model_error": a["err"]}
+            r = a["ok"]
+            if isinstance(r, dict) and "raised" in r:
+                return {"raised": r["raised"]}
+            return {"out": r, "operands": predict_glob(case, r is not None)}
         if k in ("const", "glob", "transpose"):
             a = answers[0]
             if "err" in a:
@@ -1227,7 +1337,9 @@ class C12(Prop):
             return None  # end-to-end kind: judged by the oracle only
         if case["kind"] == "glob" and "out" in impl_out:
             if canon_json(impl_out["out"]) != canon_json(model_out.get("out", "?")):
-                return "data of the new global differs from the model's transformConstant"
+                return "data of the re-laid-out root differs from the model's transformConstant"
+            if canon_json(impl_out["operands"]) != canon_json(model_out.get("operands")):
+                return "cast structure / memory spaces of the consumer's operands differ from the model's prediction"
             return None
         if case["kind"] != "realize" or "per" not in impl_out:
             if case["kind"] == "memspace" and "raised" in impl_out:
@@ -1299,7 +1411,9 @@ class C12(Prop):
         k = case["kind"]
         if isinstance(out, dict) and "raised" in out:
             return f"{k}:raised:{out['raised']}"
-        if k in ("const", "glob"):
+        if k == "glob":
+            return f"glob:{case.get('root', 'init')}:{case.get('form')}:{'none' if out.get('out') is None else 'transformed'}"
+        if k == "const":
             return f"{k}:{'none' if out.get('out') is None else 'transformed'}"
         if k == "pipe":
             return f"pipe:{'invalid' if not out.get('valid', True) else ('ok' if out.get('sem') is None else 'differs')}"
